@@ -2169,13 +2169,26 @@ def _inc_updater(doc, field_name, value):
 
 
 def _max_updater(doc, field_name, value):
-    if isinstance(doc, dict):
-        doc[field_name] = max(doc.get(field_name, value), value)
+    _pick_updater(doc, field_name, value, max)
 
 
 def _min_updater(doc, field_name, value):
+    _pick_updater(doc, field_name, value, min)
+
+
+def _pick_updater(doc, field_name, value, pick):
+    """Keeps pick(current value, value) in the field; a field that does not exist gets value."""
     if isinstance(doc, dict):
-        doc[field_name] = min(doc.get(field_name, value), value)
+        doc[field_name] = pick(doc.get(field_name, value), value)
+
+    if isinstance(doc, list):
+        field_index = int(field_name)
+        if field_index < 0:
+            raise WriteError('Negative index provided')
+        if field_index < len(doc):
+            doc[field_index] = pick(doc[field_index], value)
+        else:
+            _set_updater(doc, field_name, value)
 
 
 def _pop_updater(doc, field_name, value):
